@@ -26,6 +26,7 @@ type Anchors struct {
 	FEntryT   *types.Named
 	ArgSpecT  *types.Named
 	TokenT    *types.Named
+	FCallerT  *types.Named
 
 	NodeTypes []namedConst
 	Toks      []namedConst
@@ -71,6 +72,14 @@ func fieldIndex(n *types.Named, name string) int {
 	if !ok {
 		lost("%s is not a struct", n.Obj().Name())
 	}
+	// by role first (the conventional name is the role's id), then by name
+	if m, ok := fieldRoles[n]; ok {
+		for i, r := range m {
+			if r == name {
+				return i
+			}
+		}
+	}
 	for i := 0; i < st.NumFields(); i++ {
 		if st.Field(i).Name() == name {
 			return i
@@ -82,22 +91,7 @@ func fieldIndex(n *types.Named, name string) int {
 
 func resolveAnchors(c *Ctx) *Anchors {
 	a := &Anchors{}
-	a.ASTNode = c.namedType(c.SLib, "ASTNode")
-	a.NodeTypeT = c.namedType(c.SLib, "astNodeType")
-	a.TokT = c.namedType(c.SLib, "tokType")
-	a.JPTypeT = c.namedType(c.SLib, "jpType")
-	a.ExpRefT = c.namedType(c.SLib, "expRef")
-	a.InterpT = c.namedType(c.SLib, "treeInterpreter")
-	a.ParserT = c.namedType(c.SLib, "Parser")
-	a.LexerT = c.namedType(c.SLib, "Lexer")
-	a.SynErrT = c.namedType(c.SLib, "SyntaxError")
-	a.JMESPathT = c.namedType(c.SLib, "JMESPath")
-	a.FEntryT = c.namedType(c.SLib, "functionEntry")
-	a.ArgSpecT = c.namedType(c.SLib, "argSpec")
-	a.TokenT = c.namedType(c.SLib, "token")
-	for _, f := range []string{"nodeType", "value", "children"} {
-		fieldIndex(a.ASTNode, f)
-	}
+	c.resolveTypeAnchors(a)
 
 	a.NodeTypes = c.constsOf(c.Lib, a.NodeTypeT)
 	a.Toks = c.constsOf(c.Lib, a.TokT)
@@ -221,7 +215,7 @@ func evalFunctionTable(c *Ctx, a *Anchors) []*TableEntry {
 			if !ok {
 				lost("function entry %q uses positional fields", e.Key)
 			}
-			switch fkv.Key.(*ast.Ident).Name {
+			switch litFieldRole(info, fkv.Key, a.FEntryT) {
 			case "name":
 				tv := info.Types[fkv.Value]
 				if tv.Value == nil {
@@ -260,7 +254,7 @@ func evalFunctionTable(c *Ctx, a *Anchors) []*TableEntry {
 						if !ok {
 							lost("entry %q: positional arg spec", e.Key)
 						}
-						switch skv.Key.(*ast.Ident).Name {
+						switch litFieldRole(info, skv.Key, a.ArgSpecT) {
 						case "types":
 							tl, ok := skv.Value.(*ast.CompositeLit)
 							if !ok {
@@ -598,7 +592,7 @@ func (c *Ctx) resolveFuncAnchors(a *Anchors) {
 			return ok && types.Identical(pt.Elem(), T)
 		}
 	}
-	fcT := c.namedType(c.SLib, "functionCaller")
+	fcT := a.FCallerT
 	a.NewInterp = pick("constructor of the interpreter: func() *treeInterpreter", "newInterpreter",
 		where(func(f *ssa.Function) bool { return f.Signature.Recv() == nil && sig(f, nil, []func(types.Type) bool{ptrTo(a.InterpT)}) }))
 	a.NewFCaller = pick("constructor of the function caller: func() *functionCaller", "newFunctionCaller",
@@ -769,4 +763,313 @@ func (c *Ctx) sliceFns() (sl, cp *ssa.Function) {
 	}
 	cp = pickOne("the function that computes the slice bounds", "computeSliceParams", cps)
 	return
+}
+
+// fieldRoles: for the struct types the rules look into, the ROLE of each field
+// (named after the conventional field name), found by the field's type and
+// use, so that renaming a field does not change what the rules see.
+var fieldRoles = map[*types.Named]map[int]string{}
+
+func setRole(T *types.Named, idx int, role string) {
+	if idx < 0 {
+		return
+	}
+	if fieldRoles[T] == nil {
+		fieldRoles[T] = map[int]string{}
+	}
+	fieldRoles[T][idx] = role
+}
+
+// resolveTypeAnchors finds the types by role: exported types by their (API)
+// name, unexported ones by where they occur in the exported ones.
+func (c *Ctx) resolveTypeAnchors(a *Anchors) {
+	fieldRoles = map[*types.Named]map[int]string{}
+	st := func(T *types.Named) *types.Struct {
+		s, ok := T.Underlying().(*types.Struct)
+		if !ok {
+			lost("%s is not a struct", T.Obj().Name())
+		}
+		return s
+	}
+	named := func(t types.Type) *types.Named {
+		if pt, ok := t.(*types.Pointer); ok {
+			t = pt.Elem()
+		}
+		n, _ := t.(*types.Named)
+		return n
+	}
+	inLib := func(n *types.Named) bool { return n != nil && n.Obj().Pkg() == c.SLib.Pkg }
+	isIface := func(t types.Type) bool { _, ok := t.Underlying().(*types.Interface); return ok }
+	// fieldsWhere: indices of the fields of T whose type satisfies pred
+	fieldsWhere := func(T *types.Named, pred func(types.Type) bool) []int {
+		var out []int
+		s := st(T)
+		for i := 0; i < s.NumFields(); i++ {
+			if pred(s.Field(i).Type()) {
+				out = append(out, i)
+			}
+		}
+		return out
+	}
+	// one: the single index, or the one with the conventional name, or lost
+	one := func(T *types.Named, role string, idxs []int) int {
+		if len(idxs) == 1 {
+			return idxs[0]
+		}
+		for _, i := range idxs {
+			if st(T).Field(i).Name() == role {
+				return i
+			}
+		}
+		lost("%s: %d fields can be the %s field", T.Obj().Name(), len(idxs), role)
+		return -1
+	}
+	basic := func(k types.BasicKind) func(types.Type) bool {
+		return func(t types.Type) bool {
+			b, ok := t.(*types.Basic)
+			return ok && b.Kind() == k
+		}
+	}
+	// ---- exported types: their names are API
+	a.ASTNode = c.namedType(c.SLib, "ASTNode")
+	a.ParserT = c.namedType(c.SLib, "Parser")
+	a.LexerT = c.namedType(c.SLib, "Lexer")
+	a.SynErrT = c.namedType(c.SLib, "SyntaxError")
+	a.JMESPathT = c.namedType(c.SLib, "JMESPath")
+
+	// ---- ASTNode{nodeType, value, children}
+	ntIdx := one(a.ASTNode, "nodeType", fieldsWhere(a.ASTNode, func(t types.Type) bool {
+		n := named(t)
+		if !inLib(n) {
+			return false
+		}
+		b, ok := n.Underlying().(*types.Basic)
+		return ok && b.Info()&types.IsInteger != 0
+	}))
+	a.NodeTypeT = named(st(a.ASTNode).Field(ntIdx).Type())
+	setRole(a.ASTNode, ntIdx, "nodeType")
+	setRole(a.ASTNode, one(a.ASTNode, "value", fieldsWhere(a.ASTNode, isIface)), "value")
+	setRole(a.ASTNode, one(a.ASTNode, "children", fieldsWhere(a.ASTNode, func(t types.Type) bool {
+		sl, ok := t.(*types.Slice)
+		return ok && types.Identical(sl.Elem(), a.ASTNode)
+	})), "children")
+	if ntIdx != 0 || fieldRoles[a.ASTNode][1] != "value" || fieldRoles[a.ASTNode][2] != "children" {
+		lost("ASTNode's fields are not (node type, payload, children) in this order")
+	}
+
+	// ---- token: element of what the lexer's (string) ([]T, error) method returns
+	for _, f := range allFuncs(c.SLib) {
+		if f.Signature.Recv() == nil || named(f.Signature.Recv().Type()) != a.LexerT {
+			continue
+		}
+		p, r := f.Signature.Params(), f.Signature.Results()
+		if p.Len() == 1 && basic(types.String)(p.At(0).Type()) && r.Len() == 2 && isErrorType(r.At(1).Type()) {
+			if sl, ok := r.At(0).Type().(*types.Slice); ok {
+				if n := named(sl.Elem()); inLib(n) {
+					a.TokenT = n
+				}
+			}
+		}
+	}
+	if a.TokenT == nil {
+		a.TokenT = c.namedType(c.SLib, "token")
+	}
+	ttIdx := one(a.TokenT, "tokenType", fieldsWhere(a.TokenT, func(t types.Type) bool {
+		n := named(t)
+		if !inLib(n) {
+			return false
+		}
+		b, ok := n.Underlying().(*types.Basic)
+		return ok && b.Info()&types.IsInteger != 0
+	}))
+	a.TokT = named(st(a.TokenT).Field(ttIdx).Type())
+	setRole(a.TokenT, ttIdx, "tokenType")
+	setRole(a.TokenT, one(a.TokenT, "value", fieldsWhere(a.TokenT, basic(types.String))), "value")
+	ints := fieldsWhere(a.TokenT, basic(types.Int))
+	if len(ints) == 2 {
+		// (position, length) in declaration order unless the names say otherwise
+		pi, li := ints[0], ints[1]
+		if st(a.TokenT).Field(ints[1]).Name() == "position" || st(a.TokenT).Field(ints[0]).Name() == "length" {
+			pi, li = ints[1], ints[0]
+		}
+		setRole(a.TokenT, pi, "position")
+		setRole(a.TokenT, li, "length")
+	} else {
+		setRole(a.TokenT, one(a.TokenT, "position", ints), "position")
+	}
+	if ttIdx != 0 {
+		lost("the token type is not the first field of token")
+	}
+
+	// ---- Parser{expression, tokens, index}
+	setRole(a.ParserT, one(a.ParserT, "expression", fieldsWhere(a.ParserT, basic(types.String))), "expression")
+	setRole(a.ParserT, one(a.ParserT, "tokens", fieldsWhere(a.ParserT, func(t types.Type) bool {
+		sl, ok := t.(*types.Slice)
+		return ok && types.Identical(sl.Elem(), a.TokenT)
+	})), "tokens")
+	setRole(a.ParserT, one(a.ParserT, "index", fieldsWhere(a.ParserT, basic(types.Int))), "index")
+
+	// ---- Lexer{expression, currentPos, lastWidth, buf}: the two ints are told
+	// apart by the push-back method (), which writes the cursor and only reads the width
+	setRole(a.LexerT, one(a.LexerT, "expression", fieldsWhere(a.LexerT, basic(types.String))), "expression")
+	lints := fieldsWhere(a.LexerT, basic(types.Int))
+	if len(lints) == 2 {
+		written := map[int]int{}
+		for _, f := range allFuncs(c.SLib) {
+			if f.Signature.Recv() == nil || named(f.Signature.Recv().Type()) != a.LexerT || f.Signature.Params().Len() != 0 || f.Signature.Results().Len() != 0 {
+				continue
+			}
+			for _, b := range f.Blocks {
+				for _, in := range b.Instrs {
+					if s2, ok := in.(*ssa.Store); ok {
+						if fa, ok := s2.Addr.(*ssa.FieldAddr); ok && named(fa.X.Type()) == a.LexerT {
+							written[fa.Field]++
+						}
+					}
+				}
+			}
+		}
+		cp, lw := -1, -1
+		switch {
+		case written[lints[0]] > 0 && written[lints[1]] == 0:
+			cp, lw = lints[0], lints[1]
+		case written[lints[1]] > 0 && written[lints[0]] == 0:
+			cp, lw = lints[1], lints[0]
+		default:
+			for _, i := range lints {
+				switch st(a.LexerT).Field(i).Name() {
+				case "currentPos":
+					cp = i
+				case "lastWidth":
+					lw = i
+				}
+			}
+		}
+		if cp < 0 || lw < 0 {
+			lost("Lexer: cannot tell the cursor from the last width")
+		}
+		setRole(a.LexerT, cp, "currentPos")
+		setRole(a.LexerT, lw, "lastWidth")
+	} else {
+		for _, i := range lints {
+			setRole(a.LexerT, i, st(a.LexerT).Field(i).Name())
+		}
+	}
+	for _, i := range fieldsWhere(a.LexerT, func(t types.Type) bool {
+		n := named(t)
+		return n != nil && n.Obj().Pkg() != nil && (n.Obj().Pkg().Path() == "bytes" && n.Obj().Name() == "Buffer" || n.Obj().Pkg().Path() == "strings" && n.Obj().Name() == "Builder")
+	}) {
+		setRole(a.LexerT, i, "buf")
+	}
+
+	// ---- JMESPath{ast, intr}
+	astIdx := one(a.JMESPathT, "ast", fieldsWhere(a.JMESPathT, func(t types.Type) bool { return types.Identical(t, a.ASTNode) }))
+	setRole(a.JMESPathT, astIdx, "ast")
+	intrIdx := one(a.JMESPathT, "intr", fieldsWhere(a.JMESPathT, func(t types.Type) bool {
+		pt, ok := t.(*types.Pointer)
+		return ok && inLib(named(pt.Elem()))
+	}))
+	setRole(a.JMESPathT, intrIdx, "intr")
+	a.InterpT = named(st(a.JMESPathT).Field(intrIdx).Type())
+
+	// ---- interpreter -> function caller -> entries -> argument specs -> jp types
+	var fcT *types.Named
+	for _, i := range fieldsWhere(a.InterpT, func(t types.Type) bool {
+		pt, ok := t.(*types.Pointer)
+		return ok && inLib(named(pt.Elem()))
+	}) {
+		cand := named(st(a.InterpT).Field(i).Type())
+		if _, isStruct := cand.Underlying().(*types.Struct); !isStruct {
+			continue
+		}
+		for _, j := range fieldsWhere(cand, func(t types.Type) bool {
+			m, ok := t.(*types.Map)
+			return ok && basic(types.String)(m.Key()) && inLib(named(m.Elem()))
+		}) {
+			fcT = cand
+			a.FEntryT = named(st(cand).Field(j).Type().(*types.Map).Elem())
+			setRole(cand, j, "functionTable")
+			setRole(a.InterpT, i, "fCall")
+		}
+	}
+	if fcT == nil || a.FEntryT == nil {
+		lost("the function caller (a struct holding a map[string]<entry>) is not reachable from the interpreter's fields")
+	}
+	a.FCallerT = fcT
+	setRole(a.FEntryT, one(a.FEntryT, "name", fieldsWhere(a.FEntryT, basic(types.String))), "name")
+	argsIdx := one(a.FEntryT, "arguments", fieldsWhere(a.FEntryT, func(t types.Type) bool {
+		sl, ok := t.(*types.Slice)
+		return ok && inLib(named(sl.Elem()))
+	}))
+	setRole(a.FEntryT, argsIdx, "arguments")
+	a.ArgSpecT = named(st(a.FEntryT).Field(argsIdx).Type().(*types.Slice).Elem())
+	setRole(a.FEntryT, one(a.FEntryT, "handler", fieldsWhere(a.FEntryT, func(t types.Type) bool {
+		_, ok := t.Underlying().(*types.Signature)
+		return ok
+	})), "handler")
+	setRole(a.FEntryT, one(a.FEntryT, "hasExpRef", fieldsWhere(a.FEntryT, basic(types.Bool))), "hasExpRef")
+	typesIdx := one(a.ArgSpecT, "types", fieldsWhere(a.ArgSpecT, func(t types.Type) bool {
+		sl, ok := t.(*types.Slice)
+		return ok && inLib(named(sl.Elem()))
+	}))
+	setRole(a.ArgSpecT, typesIdx, "types")
+	a.JPTypeT = named(st(a.ArgSpecT).Field(typesIdx).Type().(*types.Slice).Elem())
+	setRole(a.ArgSpecT, one(a.ArgSpecT, "variadic", fieldsWhere(a.ArgSpecT, basic(types.Bool))), "variadic")
+
+	// ---- the expression reference: a library struct with exactly one field, an ASTNode
+	var exprefs []*types.Named
+	for _, m := range c.SLib.Members {
+		tn, ok := m.(*ssa.Type)
+		if !ok {
+			continue
+		}
+		n, ok := tn.Type().(*types.Named)
+		if !ok {
+			continue
+		}
+		s, ok := n.Underlying().(*types.Struct)
+		if ok && s.NumFields() == 1 && types.Identical(s.Field(0).Type(), a.ASTNode) {
+			exprefs = append(exprefs, n)
+		}
+	}
+	switch {
+	case len(exprefs) == 1:
+		a.ExpRefT = exprefs[0]
+	default:
+		a.ExpRefT = c.namedType(c.SLib, "expRef")
+	}
+	setRole(a.ExpRefT, 0, "ref")
+
+	// ---- SyntaxError: exported fields by name; the message is the unexported string
+	for i := 0; i < st(a.SynErrT).NumFields(); i++ {
+		f := st(a.SynErrT).Field(i)
+		if f.Exported() {
+			setRole(a.SynErrT, i, f.Name())
+		} else if basic(types.String)(f.Type()) {
+			setRole(a.SynErrT, i, "msg")
+		}
+	}
+}
+
+// litFieldRole: the role of the field a keyed composite-literal element sets
+// (by the field object's position in the struct, not by its spelling).
+func litFieldRole(info *types.Info, key ast.Expr, T *types.Named) string {
+	id, ok := key.(*ast.Ident)
+	if !ok {
+		return ""
+	}
+	st, ok := T.Underlying().(*types.Struct)
+	if !ok {
+		return id.Name
+	}
+	if obj, ok := info.Uses[id].(*types.Var); ok {
+		for i := 0; i < st.NumFields(); i++ {
+			if st.Field(i) == obj {
+				if r, ok := fieldRoles[T][i]; ok {
+					return r
+				}
+			}
+		}
+	}
+	return id.Name
 }
